@@ -1,3 +1,4 @@
+import Rb.World
 import Bd.Frame
 
 /-! # C08 — property theorems (statements only; proofs live in the family libraries) -/
@@ -32,6 +33,24 @@ theorem endCommit_frame :
     ∀ (w : W) (b tick : Nat) (b' : Nat) (hb : b' ≠ b),
     (endCommit w b tick).br b' = w.br b' :=
   @Bd.endCommit_frame
+end
+
+section
+open RbW RbM
+
+/-- independence: an insertion into tree `t` changes no other tree (e.g. a clone living on a cloned allocator) and no
+allocator other than the one `t` lives on -/
+theorem insert_frame :
+    ∀ (w w' : W) (t k v id : Nat) (ok : Bool) (h : w.insert t k v id = some (w', ok)),
+    (∀ t2, t2 ≠ t → w'.tree t2 = w.tree t2) ∧
+    (∀ a tr, w.tree t = some (a, tr) → ∀ a2, a2 ≠ a → w'.arena a2 = w.arena a2) :=
+  @RbW.insert_frame
+
+theorem delete_frame :
+    ∀ (w w' : W) (t k : Nat) (ok : Bool) (h : w.delete t k = some (w', ok)),
+    (∀ t2, t2 ≠ t → w'.tree t2 = w.tree t2) ∧
+    (∀ a tr, w.tree t = some (a, tr) → ∀ a2, a2 ≠ a → w'.arena a2 = w.arena a2) :=
+  @RbW.delete_frame
 end
 
 end Props.C08
